@@ -3,7 +3,9 @@
    edit/callback; any number of client threads; waits may return spuriously).  R c s = "s is reachable from the
    initial state by some interleaving"; every theorem below quantifies over ALL reachable states / transitions.
    Stw.recheck / Tp.chk select the code variant: true = current code (with fixes exec-stw-recheck / exec-tp-shutdown),
-   false = the code as found, for which the liveness half is refuted by the real event traces below. *)
+   false = the code as found, for which the liveness half is refuted by the real event traces below.  Tp.reg: false =
+   overflow threads are not pushed to tp->threads (code as found: they leave at once and are never joined), true = with
+   fixes/exec-tp-overflow-register.diff; the tp theorems hold for both values. *)
 Require Import List Bool Arith Lia.
 Require Import IW.CC.Lts IW.CC.Lts_proofs IW.CC.Stw IW.CC.Stw_proofs IW.CC.Tp IW.CC.Tp_proofs.
 Import ListNotations.
@@ -121,8 +123,8 @@ Print Assumptions C20_stw_accepted_eventually_refuted_without_recheck.
 
 Theorem C20_tp_accepted_partition : forall c s, Tp_proofs.R c s ->
   (forall x, In x (Tp.acc s) -> In x (Tp.enq s)) /\
-  (forall x, In x (Tp.enq s) <-> In x (Tp.queue s ++ Tp.held c s ++ Tp.done s ++ Tp.disc s)) /\
-  NoDup (Tp.queue s ++ Tp.held c s ++ Tp.done s ++ Tp.disc s) /\ NoDup (Tp.enq s).
+  (forall x, In x (Tp.enq s) <-> In x (Tp.queue s ++ Tp.held s ++ Tp.done s ++ Tp.disc s)) /\
+  NoDup (Tp.queue s ++ Tp.held s ++ Tp.done s ++ Tp.disc s) /\ NoDup (Tp.enq s).
 Proof. exact Tp_proofs.accepted_partition. Qed.
 Print Assumptions C20_tp_accepted_partition.
 
@@ -137,14 +139,15 @@ Theorem C20_tp_no_lost_wakeup : forall c s, Tp.nthreads c > 0 -> Tp_proofs.R c s
 Proof. exact Tp_proofs.no_lost_wakeup. Qed.
 Print Assumptions C20_tp_no_lost_wakeup.
 
-(* current code (shutdown check in iwtp_schedule): when iwtp_shutdown has joined every worker, every linked task has run
-   or was dropped by a non-waiting shutdown; a waiting shutdown returns with every accepted task done *)
+(* current code (shutdown check in iwtp_schedule): when iwtp_shutdown has joined the threads of its list, no thread holds a
+   task, every linked task has run or was dropped by a non-waiting shutdown; a waiting shutdown returns with every
+   accepted task done *)
 Theorem C20_tp_shutdown_wait_drains : forall c s t, Tp_proofs.R c s -> Tp.chk c = true -> Tp.nthreads c > 0 ->
   Tp.pc (Tp.th s t) = Tp.QFreed ->
-  Tp.shut s = true /\ Tp.queue s = [] /\
+  Tp.shut s = true /\ Tp.queue s = [] /\ Tp.held s = [] /\
   (forall x, In x (Tp.enq s) -> In x (Tp.done s) \/ In x (Tp.disc s)) /\
   (Tp.shut_wait s = true -> Tp.disc s = [] /\ forall x, In x (Tp.acc s) -> In x (Tp.done s)).
-Proof. exact Tp_proofs.shutdown_wait_drains. Qed.
+Proof. exact Tp_proofs.shutdown_wait_drains_thm. Qed.
 Print Assumptions C20_tp_shutdown_wait_drains.
 
 (* the code as found (chk = false) does not: real event trace of directed scenario tp-schedule-during-shutdown *)
@@ -210,7 +213,7 @@ Proof.
   vm_compute. repeat split.
 Qed.
 
-Definition ex_tp : Tp.cfg := Tp.mkcfg 2 3 1 true.
+Definition ex_tp : Tp.cfg := Tp.mkcfg 2 3 1 true true.
 Definition ex_tp_trace : list (tid * ev) :=
   [(0, ELock); (0, EUnlock); (1, ELock); (1, EUnlock);
    (10, ECall 0 5 false); (10, ELock); (10, EEnq 5); (10, ESignal 0 None); (10, EUnlock); (10, ERet 0 true);
@@ -230,7 +233,7 @@ Proof.
 Qed.
 
 (* queue non-empty with the mutex free: worker 0 busy, worker 1 not parked *)
-Example C20_ex_tp_queued : exists s, Tp_proofs.R ex_tp s /\ Tp.owner s = None /\ Tp.queue s = [6] /\ Tp.held ex_tp s = [5].
+Example C20_ex_tp_queued : exists s, Tp_proofs.R ex_tp s /\ Tp.owner s = None /\ Tp.queue s = [6] /\ Tp.held s = [5].
 Proof.
   destruct (run Tp.st (Tp.step ex_tp) (Tp.init ex_tp) (firstn 20 ex_tp_trace)) as [s|] eqn:E; [|vm_compute in E; discriminate].
   exists s. split; [exists (firstn 20 ex_tp_trace); exact E|]. vm_compute in E. inversion E; subst. vm_compute. repeat split.
